@@ -41,8 +41,23 @@ def main():
     except subprocess_timeout() as e:  # pragma: no cover
         print('TIMEOUT', e, file=sys.stderr)
         return 2
-    except Exception:
+    except Exception as e:
+        tb = traceback.extract_tb(e.__traceback__)
+        repo = os.path.realpath(common.REPO)
+        in_impl = any(os.path.realpath(fr.filename).startswith(repo + os.sep) for fr in tb) or ('File "%s%s' % (repo, os.sep)) in traceback.format_exc()
         traceback.print_exc()
+        if in_impl:
+            # the implementation raised on an input the harness considers valid and the property harness did not
+            # anticipate it: on the unchanged tree this does not happen, so the tie between model and code is broken;
+            # no failing input of the property itself was isolated
+            os.makedirs(common.REPLAY_DIR, exist_ok=True)
+            path = os.path.join(common.REPLAY_DIR, '%s_%s_%d_exception.json' % (pid, a.tier, seed))
+            json.dump(dict(property=pid, seed=seed, tier=a.tier, kind='no-failing-input-found',
+                           no_longer_checks=[dict(kind='implementation-exception', exception='%s: %s' % (type(e).__name__, str(e)[:500]),
+                                                  traceback=traceback.format_exc()[-4000:])],
+                           how_to_run='./check %s --tier %s' % (pid, a.tier)), open(path, 'w'), indent=1)
+            print('VIOLATION property=%s replay=%s no-failing-input-found' % (pid, os.path.relpath(path, common.VERIF)))
+            return 1
         print('INFRASTRUCTURE-ERROR in check %s (exit 2, not a verdict)' % pid, file=sys.stderr)
         return 2
 
